@@ -6,6 +6,11 @@ Export ListNotations.
 
 Ltac Zify.zify_post_hook ::= Z.div_mod_to_equations.
 
+(** no witness caches: a build never depends on files left behind by an earlier one *)
+#[global] Unset Lia Cache.
+#[global] Unset Nia Cache.
+#[global] Unset Nra Cache.
+
 Global Arguments N.add : simpl never.
 Global Arguments N.sub : simpl never.
 Global Arguments N.mul : simpl never.
